@@ -29,13 +29,13 @@ CLAIMS = {
           "(R2) in every pack-writing entry point an index row is committed only after its pack bytes were flushed/closed, a loose file is unlinked only after its row is committed and only for keys staged by this call (a collection feeding unlinks may only be filled next to a staging site), every staged row is inserted and committed; "
           "(R3) clean_storage decides unlinks on a query run after a session refresh; (R4) repack state machine: the file the committed index designates is always present and flushed (or the index points to the temporary pack); "
           "(R5) delete: files first, then rows, one commit after the loop; (R6) transaction premises in database.get_session: explicit BEGIN with pysqlite's implicit transactions off, no autocommit/autoflush, no PRAGMA other than journal_mode=wal; (R7) do_commit forwarded unchanged by every wrapper. Does NOT decide what the real kernel/SQLite leave on disk after a kill, nor byte-level completeness: only the order of effects (a necessary condition)."),
-    note="Trusted: POSIX rename/replace/link atomicity, SQLite atomic commit, O_APPEND; single packer; generators treated as eagerly consumed; Python dynamism not modelled.",
+    note="Trusted: POSIX rename/replace/link atomicity, SQLite atomic commit, O_APPEND; single packer; generators treated as eagerly consumed; Python dynamism not modelled. Also hosts the rule module of C13 (a pack selector that appends after a torn tail or past a stale cached size breaks crash safety).",
     technique="static typestate analysis on inlined CFGs (generic-object construction, flag specialisation)", ref="5/C05"),
  'C06': dict(
     text=("Decides the durability-ordering clauses for do_fsync=True on every path: (R0) safe_flush_to_disk flushes then fsyncs the handle's own descriptor for every binding of use_fullsync and the platform constants; "
           "(R1) every do_fsync parameter defaults to True and is forwarded unchanged; (R2) the sandbox file is flushed+fsynced+closed before the rename/replace; (R3) an index row is committed only after flush+fsync of the pack file, loose files unlinked only after that commit; "
           "(R4) repack: temporary pack fsynced before the first commit, old pack removed only after it; (R5) transaction premises (commits explicit, atomic and durable: explicit BEGIN, no autocommit, only PRAGMA journal_mode=wal). Does NOT decide what storage really persists (fault model as stated by the property; no directory-fsync obligation)."),
-    note="Platform constants folded for the platform running the check (Linux); SQLite commit durability trusted.",
+    note="Platform constants folded for the platform running the check (Linux); SQLite commit durability trusted. Also hosts the rule module of C13 (what is durable must stay where it is: append-only, in-order packs).",
     technique="static typestate analysis with durability facts + must-pass-through on the callee (alias-resolved fsync lambda)", ref="5/C06"),
  'C04': dict(
     text=("Decides the code-side premises of the reader/writer/packer protocol (the short safety argument from the premises is in DESIGN.md 5/C04): "
@@ -49,7 +49,7 @@ CLAIMS = {
     text=("Decides, on control-flow graphs with exception edges (any call may raise): (R2) no except clause of the package that catches a generic I/O or database error around a mutating effect continues normally (table of allowed narrow idioms); (R2p) closed table of the sites that swallow PermissionError or a whole OSError; "
           "(R3) the C05 commit/unlink/publish/repack guards also hold along handler, finally and with-exit paths, no index row is staged or tracked for an object whose processing was interrupted by a swallowed exception, and offset/length of every staged row are taken from the handle after any interrupted write (range machine on the exception graph); "
           "(R4) HashWriterWrapper.write checks the stream position before writing and updates hash/position only after it. Does NOT decide the behaviour of real calls under injected faults nor that a rerun succeeds."),
-    note="Fault model: one call raises OSError/OperationalError; PermissionError (Windows locking) handlers only checked by R3; stale lock files / sandbox litter tolerated by the property.",
+    note="Fault model: one call raises OSError/OperationalError; PermissionError (Windows locking) handlers only checked by R3; stale lock files / sandbox litter tolerated by the property. Also hosts the rule module of C13 (after a failed append the next append must start at the real end of the pack).",
     technique="static typestate analysis on exception-edge CFGs + error-discipline table over all except clauses", ref="5/C17"),
  'C09': dict(
     text=("Decides the structural clauses of deduplication: (R1) ObjectWriter: the loose destination is a function of the key only; on every return path an existing copy was verified (checksum equal / vanished) or replaced, an absent destination was published; "
